@@ -10,6 +10,7 @@ all five operators, all nine container combinations, lists of ANY length and all
 `d` (`numpyDefers`) is irrelevant here because the left operand is a barril object.
 -/
 import Barril.Proofs.OpsLemmas
+import Barril.Proofs.OpsRegistryLemmas
 import Barril.Props.C09
 
 namespace Barril.Ops
@@ -343,5 +344,92 @@ theorem getValuesRows_elementwise (env : Env) (cat unit u qt : Sym) (rows out : 
 /-! a unit with an offset (13 = unit 11 shifted by 273): outside a derived quantity the matched value is
 shifted, inside a derived quantity it is scaled (repair 1e63d4c) — for every container combination, and
 exactly as for the Scalars -/
+
+/-! ### a database on which additional conversion types have been registered
+
+`UnitDatabase.RegisterAdditionalConversionType` is public and its registry is shared by every database of the
+process.  Model: `Barril/Model/OpsRegistry.lean` (`Registry.dispatch` = Python's `isinstance` loop at the head of
+`UnitDatabase.Convert`; `arrayComputeReg`, `arrayOpArrayReg`, `arrayGetValuesReg` = the Array operations with the
+registry as a parameter). -/
+
+/-- **Registering a conversion for a class that is not a base class of the value's class changes nothing**: an entry
+for a SUBCLASS of the container's class (an ndarray subclass, a list subclass) or for an unrelated class, put ANYWHERE
+into the registry with ANY function, leaves every result of the operations of `Array._DoOperation` as it was (all
+operators, quantities, containers, values; `c1`, `c2`: the classes of the two value containers, `numClass`: of their
+elements). -/
+theorem register_unrelated_invisible (env : Env) (r1 r2 : Registry) (e : RegEntry) (c1 c2 : PyClass) (op : Op)
+    (q1 q2 : Quantity) (ra rb : Raw)
+    (h1 : c1.isSub e.cls = false) (h2 : c2.isSub e.cls = false) (hn : numClass.isSub e.cls = false) :
+    arrayComputeReg env (r1 ++ e :: r2) c1 c2 op q1 q2 ra rb = arrayComputeReg env (r1 ++ r2) c1 c2 op q1 q2 ra rb := by
+  simp only [arrayComputeReg, convertReg_skip env r1 r2 e _ h1, convertReg_skip env r1 r2 e _ h2,
+    convertReg_skip env r1 r2 e _ hn]
+
+/-- the same for the unit conversion `Array.GetValues(unit)` / `CreateCopy(unit=…)` -/
+theorem register_unrelated_invisible_getvalues (env : Env) (r1 r2 : Registry) (e : RegEntry) (c : PyClass)
+    (cat unit u : Sym) (kind : Kind) (vs : List Rat) (h : c.isSub e.cls = false) :
+    arrayGetValuesReg env (r1 ++ e :: r2) c cat unit kind vs u = arrayGetValuesReg env (r1 ++ r2) c cat unit kind vs u := by
+  simp only [arrayGetValuesReg, convertReg_skip env r1 r2 e _ h]
+
+/-- the two-step history: `RegisterAdditionalConversionType(k, fn)` succeeded, THEN the operation runs -/
+theorem register_then_operate (env : Env) (reg reg' : Registry) (k : Nat) (fn : ConvFn) (c1 c2 : PyClass) (op : Op)
+    (q1 q2 : Quantity) (ra rb : Raw) (hr : reg.register k fn = .ok reg')
+    (h1 : c1.isSub k = false) (h2 : c2.isSub k = false) (hn : numClass.isSub k = false) :
+    arrayComputeReg env reg' c1 c2 op q1 q2 ra rb = arrayComputeReg env reg c1 c2 op q1 q2 ra rb := by
+  unfold Registry.register at hr
+  cases hlk : reg.lookup k with
+  | none =>
+    simp only [hlk, Except.ok.injEq] at hr
+    subst hr
+    have := register_unrelated_invisible env reg [] ⟨k, fn⟩ c1 c2 op q1 q2 ra rb h1 h2 hn
+    simpa using this
+  | some g =>
+    simp only [hlk] at hr
+    split at hr
+    · cases hr; rfl
+    · cases hr
+
+/-- **With a registry that values of the operands' classes cannot see** (no registered class is a base class, or the
+first one that is carries the elementwise number conversion — after import: `numpy.ndarray` ↦ `ConvertNumpyArray`;
+whatever has been registered for subclasses and unrelated classes), `Array op Array` IS the operation of the
+registry-free model, so every C10 theorem above holds on such a database. -/
+theorem registry_invisible_array_op {env : Env} (hl : env.Lawful) (d : Bool) (reg : Registry) (ndc : PyClass) (op : Op)
+    (q1 q2 : Quantity) (k1 k2 : Kind) (xs ys : List Rat)
+    (h1 : reg.Invisible (kindClass ndc k1)) (h2 : reg.Invisible (kindClass ndc k2)) (hn : reg.Invisible numClass) :
+    arrayOpArrayReg env reg ndc op q1 k1 xs q2 k2 ys = binop env d op (.array q1 k1 xs) (.array q2 k2 ys) := by
+  rw [array_op_array, arrayOpArrayReg, arrayComputeReg_plain hl h1 h2 hn]
+
+theorem registry_invisible_getvalues {env : Env} (hl : env.Lawful) (reg : Registry) (c : PyClass)
+    (cat unit u : Sym) (kind : Kind) (vs : List Rat) (h : reg.Invisible c) :
+    arrayGetValuesReg env reg c cat unit kind vs u = arrayGetValues env cat unit kind vs u := by
+  rw [arrayGetValuesReg, arrayGetValues, convertReg_plain hl h]
+  split
+  · rfl
+  · cases env.convertLookup cat unit u with
+    | error e => rfl
+    | ok _ => simp only; cases mapE (env.convert cat unit u) vs <;> rfl
+
+/-- elementwise = Scalar arithmetic on a database with registrations (Scalars never reach the registry) -/
+theorem array_op_elementwise_registry {env : Env} (hl : env.Lawful) (d : Bool) (reg : Registry) (ndc : PyClass) (op : Op)
+    (q1 q2 : Quantity) (k1 k2 : Kind) (xs ys : List Rat) (q : Quantity) (k : Kind) (zs : List Rat)
+    (h1 : reg.Invisible (kindClass ndc k1)) (h2 : reg.Invisible (kindClass ndc k2)) (hn : reg.Invisible numClass)
+    (h : arrayOpArrayReg env reg ndc op q1 k1 xs q2 k2 ys = .ok (.array q k zs)) :
+    xs.length = ys.length ∧ zs.length = xs.length ∧ k = resultKind k1 k2 ∧
+    ∀ i (h1 : i < xs.length) (h2 : i < ys.length) (h3 : i < zs.length),
+      binop env d op (.scalar q1 xs[i]) (.scalar q2 ys[i]) = .ok (.scalar q zs[i]) := by
+  rw [registry_invisible_array_op hl d reg ndc op q1 q2 k1 k2 xs ys h1 h2 hn] at h
+  exact array_op_elementwise env d op q1 q2 k1 k2 xs ys q k zs h
+
+/-- "neither depends on the container kind" on a database with registrations: whatever the registry holds for
+subclasses and unrelated classes, list / tuple / ndarray operands give the same quantity and the same values -/
+theorem array_op_kind_independent_registry {env : Env} (hl : env.Lawful) (reg : Registry) (ndc : PyClass) (op : Op)
+    (q1 q2 : Quantity) (k1 k2 k1' k2' : Kind) (xs ys : List Rat) (o o' : Out)
+    (hl' : reg.Invisible listClass) (ht : reg.Invisible tupleClass) (hnd : reg.Invisible ndc) (hn : reg.Invisible numClass)
+    (h : arrayOpArrayReg env reg ndc op q1 k1 xs q2 k2 ys = .ok o)
+    (h' : arrayOpArrayReg env reg ndc op q1 k1' xs q2 k2' ys = .ok o') :
+    o.quantity? = o'.quantity? ∧ o.values? = o'.values? := by
+  have hk : ∀ k, reg.Invisible (kindClass ndc k) := fun k => by cases k <;> assumption
+  rw [registry_invisible_array_op hl true reg ndc op q1 q2 k1 k2 xs ys (hk _) (hk _) hn] at h
+  rw [registry_invisible_array_op hl true reg ndc op q1 q2 k1' k2' xs ys (hk _) (hk _) hn] at h'
+  exact array_op_kind_independent env true op q1 q2 k1 k2 k1' k2' xs ys o o' h h'
 
 end Barril.Ops
